@@ -47,6 +47,12 @@ class Engine(ExprMixin, StmtMixin, CallMixin, EngineBase):
 
     def verify(self, qual):
         """-> list of Obligation (status filled in) for function `qual`."""
+        self.verify_generate(qual)
+        discharge_many(self.all_axioms(), self.obligations, self.timeout_ms, self.jobs)
+        return self.obligations
+
+    def verify_generate(self, qual):
+        """symbolic execution only: obligations with status None (safety side conditions already decided)."""
         c = self.contracts.get(qual)
         if c is None:
             raise ContractError("no contract for %s" % qual)
@@ -79,6 +85,7 @@ class Engine(ExprMixin, StmtMixin, CallMixin, EngineBase):
         st.snapshot('old')
         outs = self.exec_block(fdef.body, st)
         self.stats['paths'] += len(outs)
+        self.last_paths = len(outs)
         canary_done = False
         for s1, kind, val in outs:
             if kind in ('normal', 'return'):
@@ -111,8 +118,6 @@ class Engine(ExprMixin, StmtMixin, CallMixin, EngineBase):
                         self.oblige(s1, 'exc-post', '%s:%d' % (val.cls, n), e, self.ev_spec(e, s1), fdef.lineno)
             else:
                 raise Unsupported("%s escapes %s" % (kind, qual))
-        ax = self.all_axioms()
-        discharge_many(ax, self.obligations, self.timeout_ms, self.jobs)
         return self.obligations
 
     def prove_lemma(self, name, vc, axiom, props=()):
